@@ -22,7 +22,7 @@ theorem mask_nonempty (i : Inst) (hwf : WF i) (s : State) (h : Reach env i s) :
   · exact anyUpTo_iff.mp hsc
   · refine ⟨0, ?_, ?_⟩
     · simp only [env, nAct]; split <;> omega
-    · simp only [env, mask, if_true, noOpMask]
+    · simp only [env, mask, if_true, noOpMask_eq]
       split <;> simp [hsc]
 
 /-- a finished row is offered exactly the wait action -/
@@ -34,7 +34,7 @@ theorem mask_of_done (i : Inst) (hwf : WF i) (s : State) (h : Reach env i s) (hd
     exact allUpTo_iff.mp this.symm
   by_cases ha0 : a = 0
   · subst ha0
-    simp only [env, mask, if_true, noOpMask]
+    simp only [env, mask, if_true, noOpMask_eq]
     split <;> simp [hd]
   · simp only [env, mask, ha0, if_false, decide_false]
     simp only [env, nAct] at ha
